@@ -73,7 +73,7 @@ Variable cfg : config.
 
 Definition pushed (cur : vnode) (c : cand) (s : state) : state :=
   mkSt (next_of cur c :: stack s) (key_of (next_of cur c) :: seen s)
-       (match c_pei c with Some i => pei_add (pei s) (v_node cur) i | None => pei s end)
+       (fold_left (fun m i => pei_add m (v_node cur) i) (c_pei c) (pei s))
        (traces s) (silent s) (visited s) (err s) (N.succ (n_adds s)).
 
 Lemma add_next_cases : forall cur c s,
